@@ -29,3 +29,54 @@ func VerifH_C13_Random(_ int) {
 	verifapi.Assert(rg.tab[i1] == stored, "table entry updated with the 31-bit difference")
 	verifapi.Cover(true, "compared")
 }
+
+// vRefFTransform: libwebp's FTransform_C (src/dsp/enc.c), transcribed loop form - the reference every
+// platform-specific forward DCT has to reproduce bit for bit.
+func vRefFTransform(src, ref []byte, out []int16) {
+	var tmp [16]int64
+	for i := 0; i < 4; i++ {
+		d0 := int64(src[i*BPS+0]) - int64(ref[i*BPS+0])
+		d1 := int64(src[i*BPS+1]) - int64(ref[i*BPS+1])
+		d2 := int64(src[i*BPS+2]) - int64(ref[i*BPS+2])
+		d3 := int64(src[i*BPS+3]) - int64(ref[i*BPS+3])
+		a0, a1, a2, a3 := d0+d3, d1+d2, d1-d2, d0-d3
+		tmp[0+i*4] = (a0 + a1) * 8
+		tmp[1+i*4] = (a2*2217 + a3*5352 + 1812) >> 9
+		tmp[2+i*4] = (a0 - a1) * 8
+		tmp[3+i*4] = (a3*2217 - a2*5352 + 937) >> 9
+	}
+	for i := 0; i < 4; i++ {
+		a0, a1 := tmp[0+i]+tmp[12+i], tmp[4+i]+tmp[8+i]
+		a2, a3 := tmp[4+i]-tmp[8+i], tmp[0+i]-tmp[12+i]
+		nz := int64(0)
+		if a3 != 0 {
+			nz = 1
+		}
+		out[0+i] = int16((a0 + a1 + 7) >> 4)
+		out[4+i] = int16(((a2*2217 + a3*5352 + 12000) >> 16) + nz)
+		out[8+i] = int16((a0 - a1 + 7) >> 4)
+		out[12+i] = int16((a3*2217 - a2*5352 + 51000) >> 16)
+	}
+}
+
+// VerifH_C13_FTransform: the portable forward DCT and the dispatched one (assembly on amd64/arm64
+// in the native replay; the portable one under the engine) equal the reference for all 4x4
+// source/prediction blocks.
+func VerifH_C13_FTransform(_ int) {
+	Init()
+	src, ref := make([]byte, 4*BPS), make([]byte, 4*BPS)
+	for j := 0; j < 4; j++ {
+		for i := 0; i < 4; i++ {
+			src[j*BPS+i], ref[j*BPS+i] = verifapi.U8("src"), verifapi.U8("ref")
+		}
+	}
+	var want, got, disp [16]int16
+	vRefFTransform(src, ref, want[:])
+	fTransform(src, ref, got[:])
+	FTransform(src, ref, disp[:])
+	for i := range want {
+		verifapi.Assert(got[i] == want[i], "portable forward DCT coefficient equals the reference")
+		verifapi.Assert(disp[i] == want[i], "dispatched forward DCT coefficient equals the reference")
+	}
+	verifapi.Cover(true, "compared")
+}
